@@ -1,22 +1,36 @@
 ------------------------------- MODULE VTerm -------------------------------
 (* C15 design-level model: the reference terminal of VTermOps/Terminal under every bounded  *)
-(* sequence of the commands the property lists, on a tiny grid with scrolling regions.      *)
+(* sequence of the commands the property lists (and of what a VT100 documents next to them: *)
+(* text runs, tab stops, origin / insert / autowrap / new-line mode, save / restore cursor, *)
+(* charsets, queries), on a tiny grid with scrolling regions.                               *)
 (*  - TLC checks (Spec): the grid is always H x W, cursor and scrolling region stay inside,  *)
-(*    pending wrap only at the margin, the scrollback only grows and keeps its lines in      *)
-(*    order, every console-dialect result is a well-formed terminal too, and the reference    *)
-(*    is accepted by its own comparator (Matches / Why of VTermOps).                          *)
-(*  - Refutations (expected to FAIL): an "erase to cursor" that leaves the cursor cell, and   *)
-(*    a comparator that could not tell it from the reference.                                 *)
+(*    pending wrap only at the margin, in origin mode the cursor never leaves the region,     *)
+(*    tab stops stay inside the screen, the scrollback only grows, keeps its lines in order   *)
+(*    and is fed only by a region that starts at the top, scrolling inside a region never     *)
+(*    touches a line outside it, autowrap outside the region moves down without scrolling,    *)
+(*    every query has a well-formed answer, every console-dialect result is a well-formed     *)
+(*    terminal too, and the reference is accepted by its own comparator (Matches / Why).      *)
+(*  - Refutations (expected to FAIL): an "erase to cursor" that leaves the cursor cell, an    *)
+(*    autowrap that is bounded by the bottom margin instead of the bottom of the screen, and  *)
+(*    a comparator that could not tell them from the reference.                               *)
 (*  - SimSpec is the GENERATOR of command sequences for the conformance run (tlc -simulate):  *)
 (*    `last` carries the command.  With Clean = TRUE the generator stays away from the        *)
-(*    situations in which the real emulator is already known to differ (findings/C15.json),   *)
-(*    so that long sequences keep exercising everything else; the ghost record gh exists      *)
-(*    only for these generator guards and is never part of a verdict.                         *)
+(*    situations in which the real emulator is known to differ (open findings of              *)
+(*    findings/C15.json), so that long sequences keep exercising everything else; the ghost   *)
+(*    record gh exists only for these generator guards and is never part of a verdict.        *)
+(*    ExtPct = share (percent) of commands outside the literally listed subset.               *)
+(*  - RegSpec is the EXHAUSTIVE generator of the scrolling-region family: the screen filled   *)
+(*    with text, one mode prelude, every region, the cursor addressed to every row (above /   *)
+(*    inside / on the margins / below the region) at the left and the right edge, then every  *)
+(*    command of RegActs (text runs that cross the right edge, LF / IND / NEL / RI, IL / DL,  *)
+(*    cursor movement past the margins, ED, CPR), then RegDepth - 1 further text runs.  Every  *)
+(*    reachable state carries its command history (hist); the driver takes the histories of   *)
+(*    the final states (tlc -dump) and replays them into the real emulator.                   *)
 EXTENDS VTermOps
 
-CONSTANTS W, H, Depth, Clean
-VARIABLES t, n, last, gh
-vars == <<t, n, last, gh>>
+CONSTANTS W, H, Depth, Clean, ExtPct, RegDepth
+VARIABLES t, n, last, gh, hist
+vars == <<t, n, last, gh, hist>>
 
 NoPs == <<>>
 Letter == 97 + (n % 26)
@@ -30,80 +44,187 @@ SgrBright == {<<91>>, <<102>>, <<1, 94>>, <<97, 100>>}
 SgrTrue   == {<<38, 2, 1, 2, 3>>, <<48, 2, 250, 128, 7>>, <<38, 2, 9, 8, 7, 48, 2, 1, 1, 1>>, <<38, 2, 0, 0, 255>>}
 SgrZero   == {<<48, 5, 0>>, <<48, 2, 250, 128, 0>>, <<38, 2, 0, 0, 0>>}      \* last parameter is a colour component 0
 
+C0(k) == Cmd(k, 0, 0, NoPs)
+C1(k, a) == Cmd(k, a, 0, NoPs)
+
 Common(ns, sg, xs, ys) ==
-       {Cmd("put", 0, 0, NoPs), Cmd("cr", 0, 0, NoPs), Cmd("lf", 0, 0, NoPs), Cmd("ri", 0, 0, NoPs), Cmd("bs", 0, 0, NoPs)}
+       {C0("put"), C0("cr"), C0("lf"), C0("ri"), C0("bs")}
   \cup {Cmd("cup", x, y, NoPs) : x \in xs, y \in ys}
-  \cup {Cmd(k, a, 0, NoPs) : k \in {"cuu", "cud", "cuf", "cub", "ich", "dch", "il", "dl"}, a \in ns}
-  \cup {Cmd(k, a, 0, NoPs) : k \in {"el", "ed"}, a \in 0..2}
+  \cup {C1(k, a) : k \in {"cuu", "cud", "cuf", "cub", "ich", "dch", "il", "dl"}, a \in ns}
+  \cup {C1(k, a) : k \in {"el", "ed"}, a \in 0..2}
   \cup {Cmd("stbm", a, b, NoPs) : a \in 0..(H - 1), b \in {0} \cup (2..(H + 1))}
   \cup {Cmd("sgr", 0, 0, ps) : ps \in sg}
 
-McCmds  == Common(1..2, SgrSmall, 0..(W - 1), 0..(H - 1))
+\* outside the literally listed subset
+ExtCmds ==
+       {C1("txt", 2), C0("ind"), C0("nel"), C0("ht"), C0("hts"), C0("decsc"), C0("decrc"), C0("scosc"), C0("scorc"),
+        C0("so"), C0("si"), C0("cpr")}
+  \cup {C1(k, a) : k \in {"cha", "vpa"}, a \in {1, 2, W, H}}
+  \cup {C1(k, a) : k \in {"cnl", "cpl", "ech"}, a \in 1..2}
+  \cup {C1("tbc", a) : a \in {0, 3}}
+  \cup {C1(k, a) : k \in {"decom", "irm", "decawm", "lnm"}, a \in 0..1}
+  \cup {Cmd("scs", g, b, NoPs) : g \in 0..1, b \in {48, 66}}
 
-Concrete(c) == IF c.t = "put" THEN [c EXCEPT !.a = Letter] ELSE c
+McCmds  == Common(1..2, SgrSmall, 0..(W - 1), 0..(H - 1)) \cup (IF ExtPct > 0 THEN ExtCmds ELSE {})
+
+\* "put" prints the next letter, "txt" with a = k a run of the next k letters
+Concrete(c) == IF c.t = "put" THEN [c EXCEPT !.a = Letter]
+               ELSE IF c.t = "txt" /\ c.ps = NoPs THEN [c EXCEPT !.ps = [i \in 1..c.a |-> 97 + ((n + i - 1) % 26)], !.a = 0]
+               ELSE c
 
 HasTrue(ps) == \E i \in 1..Len(ps) : ps[i] \in {38, 48} /\ i + 1 <= Len(ps) /\ ps[i + 1] = 2
 IsTrueOrDefault(col) == col = -1 \/ col >= 16777216
-\* generator guard: keep away from the situations of the known findings
+CursorCell == t.grid[t.cy + 1][t.cx + 1]
+\* generator guard: keep away from the situations of the open findings
 CleanOK(c) ==
-  /\ (c.t = "put" /\ t.cx = t.w - 1) => gh.rot = t.pend
-  /\ (c.t = "put" /\ t.pend) => t.cy <= t.bot
-  /\ c.t = "ed" => ~(c.a = 1 /\ t.cx > 0)
-  /\ c.t \in {"il", "dl"} => t.cy <= t.bot
   /\ c.t = "sgr" =>
-       /\ c.ps \notin SgrBright \cup SgrZero
        /\ (c.ps \in SgrTrue => IsTrueOrDefault(t.pen.fg) /\ IsTrueOrDefault(t.pen.bg))
        /\ (gh.tm => c.ps \in SgrTrue \cup SgrFlags \cup {<<0>>, <<>>, <<39>>, <<49>>, <<39, 49>>})
+  /\ c.t = "ht" => t.cx = t.w - 1 \/ (CursorCell.c = 32 /\ CursorCell.bg = t.pen.bg)       \* HT blanks the cell it starts from
+  /\ (c.t = "ed" /\ OM(t)) => c.a = 2 \/ (t.top = 0 /\ t.bot = t.h - 1)                    \* ED in origin mode stops at the margins
+  /\ c.t = "decom" => ~(t.pend /\ t.w = 1)                                                  \* DECOM keeps the last-column flag
+  /\ c.t = "scs" => ~gh.sv                                                                  \* ESC 7 shares the charset table with its copy
+\* generator guard of both profiles: G1 is invoked only after it has been designated (the console's default G1 is the
+\* graphics set, a VT100's is ASCII)
+AlwaysOK(c) == c.t = "so" => gh.g1d
 
 Do(c0) ==
   LET c == Concrete(c0)  t2 == Ref(t, c) IN
   /\ t' = t2
   /\ n' = n + 1
   /\ last' = c
-  /\ gh' = [rot |-> IF c.t = "put" THEN t2.pend ELSE gh.rot,
-            tm  |-> IF c.t # "sgr" THEN gh.tm
-                    ELSE IF c.ps = <<>> \/ c.ps[Len(c.ps)] = 0 THEN FALSE ELSE (gh.tm \/ HasTrue(c.ps))]
+  /\ hist' = IF hist = <<>> THEN hist ELSE Append(hist, c)
+  /\ gh' = [tm  |-> IF c.t # "sgr" THEN gh.tm
+                    ELSE IF c.ps = <<>> \/ c.ps[Len(c.ps)] = 0 THEN FALSE ELSE (gh.tm \/ HasTrue(c.ps)),
+            g1d |-> gh.g1d \/ (c.t = "scs" /\ c.a = 1),
+            sv  |-> gh.sv \/ c.t = "decsc"]
 
-Init == t = NewTerm(W, H) /\ n = 0 /\ last = Cmd("init", 0, 0, NoPs) /\ gh = [rot |-> FALSE, tm |-> FALSE]
-Next == n < Depth /\ \E c \in McCmds : Do(c)
+Gh0 == [tm |-> FALSE, g1d |-> FALSE, sv |-> FALSE]
+Init == t = NewVT(W, H) /\ n = 0 /\ last = Cmd("init", 0, 0, NoPs) /\ gh = Gh0 /\ hist = <<>>
+Next == n < Depth /\ \E c \in McCmds : AlwaysOK(c) /\ Do(c)
 \* weighted random choice of one command (one successor per step: fast, and printable text dominates as in real output)
 AllSgr == SgrFlags \cup SgrPal \cup SgrReset \cup SgrBright \cup SgrTrue \cup SgrZero
 \* (every RandomElement argument mentions the state variable n: TLC would otherwise evaluate the constant expression once)
 Z == 0 * n
 Counts == Z..(W + 1)
-SimChoice ==
+Pick(seq) == seq[RandomElement((1 + Z)..Len(seq))]
+CoreChoice ==
   LET r == RandomElement((1 + Z)..100) IN
-  IF r <= 28 THEN Cmd("put", 0, 0, NoPs)
-  ELSE IF r <= 32 THEN Cmd("cr", 0, 0, NoPs)
-  ELSE IF r <= 39 THEN Cmd("lf", 0, 0, NoPs)
-  ELSE IF r <= 44 THEN Cmd("ri", 0, 0, NoPs)
-  ELSE IF r <= 47 THEN Cmd("bs", 0, 0, NoPs)
+  IF r <= 28 THEN C0("put")
+  ELSE IF r <= 32 THEN C0("cr")
+  ELSE IF r <= 39 THEN C0("lf")
+  ELSE IF r <= 44 THEN C0("ri")
+  ELSE IF r <= 47 THEN C0("bs")
   ELSE IF r <= 54 THEN Cmd("cup", RandomElement(Z..W), RandomElement(Z..H), NoPs)
-  ELSE IF r <= 62 THEN Cmd(RandomElement({<<"cuu", "cud", "cuf", "cub">>[i] : i \in (1 + Z)..4}), RandomElement(Counts), 0, NoPs)
-  ELSE IF r <= 67 THEN Cmd("el", RandomElement(Z..2), 0, NoPs)
-  ELSE IF r <= 71 THEN Cmd("ed", RandomElement(Z..2), 0, NoPs)
-  ELSE IF r <= 79 THEN Cmd(RandomElement({<<"ich", "dch">>[i] : i \in (1 + Z)..2}), RandomElement(Counts), 0, NoPs)
-  ELSE IF r <= 87 THEN Cmd(RandomElement({<<"il", "dl">>[i] : i \in (1 + Z)..2}), RandomElement(Counts), 0, NoPs)
+  ELSE IF r <= 62 THEN C1(Pick(<<"cuu", "cud", "cuf", "cub">>), RandomElement(Counts))
+  ELSE IF r <= 67 THEN C1("el", RandomElement(Z..2))
+  ELSE IF r <= 71 THEN C1("ed", RandomElement(Z..2))
+  ELSE IF r <= 79 THEN C1(Pick(<<"ich", "dch">>), RandomElement(Counts))
+  ELSE IF r <= 87 THEN C1(Pick(<<"il", "dl">>), RandomElement(Counts))
   ELSE IF r <= 92 THEN Cmd("stbm", RandomElement(Z..H), RandomElement(Z..(H + 1)), NoPs)
   ELSE Cmd("sgr", 0, 0, RandomElement({ps \in AllSgr : Z = 0}))
-\* in the clean profile a command that would enter a known-finding situation is replaced by text or a carriage return
-Steer(c) == IF ~Clean \/ CleanOK(c) THEN c
-            ELSE IF CleanOK(Cmd("put", 0, 0, NoPs)) THEN Cmd("put", 0, 0, NoPs) ELSE Cmd("cr", 0, 0, NoPs)
+ExtChoice ==
+  LET r == RandomElement((1 + Z)..106) IN
+  IF r <= 14 THEN C1("txt", RandomElement((2 + Z)..(W + 2)))
+  ELSE IF r <= 17 THEN C0("ind")
+  ELSE IF r <= 21 THEN C0("nel")
+  ELSE IF r <= 26 THEN C1("cha", RandomElement(Z..(W + 1)))
+  ELSE IF r <= 31 THEN C1("vpa", RandomElement(Z..(H + 1)))
+  ELSE IF r <= 37 THEN C1(Pick(<<"cnl", "cpl">>), RandomElement(Z..H))
+  ELSE IF r <= 42 THEN C1("ech", RandomElement(Counts))
+  ELSE IF r <= 48 THEN C0("ht")
+  ELSE IF r <= 52 THEN C0("hts")
+  ELSE IF r <= 55 THEN C1("tbc", Pick(<<0, 0, 3>>))
+  ELSE IF r <= 61 THEN C1("decom", RandomElement(Z..1))
+  ELSE IF r <= 66 THEN C1("irm", RandomElement(Z..1))
+  ELSE IF r <= 71 THEN C1("decawm", RandomElement(Z..1))
+  ELSE IF r <= 75 THEN C1("lnm", RandomElement(Z..1))
+  ELSE IF r <= 79 THEN C0("decsc")
+  ELSE IF r <= 84 THEN C0("decrc")
+  ELSE IF r <= 86 THEN C0("scosc")
+  ELSE IF r <= 89 THEN C0("scorc")
+  ELSE IF r <= 92 THEN C0("so")
+  ELSE IF r <= 95 THEN C0("si")
+  ELSE IF r <= 100 THEN Cmd("scs", RandomElement(Z..1), Pick(<<48, 48, 66>>), NoPs)
+  ELSE IF r <= 104 THEN C0("cpr")
+  ELSE Pick(<<C0("dsr"), C0("da")>>)
+SimChoice == IF RandomElement((1 + Z)..100) <= ExtPct THEN ExtChoice ELSE CoreChoice
+\* a command that the guards exclude is replaced by text
+Steer(c) == IF (~Clean \/ CleanOK(c)) /\ AlwaysOK(c) THEN c ELSE C0("put")
 SimNext == n < Depth /\ \E c \in {SimChoice} : Do(Steer(c))
 Spec == Init /\ [][Next]_vars
 SimSpec == Init /\ [][SimNext]_vars
 
+(* ---- the scrolling-region family (exhaustive; every state carries its history) ---- *)
+RegFill == Cmd("txt", 0, 0, [i \in 1..(W * H) |-> 65 + ((i - 1) % 26)])       \* every line gets its own capital letters
+RegPre  == {Cmd("sgr", 0, 0, <<44>>), C1("decom", 1), C1("irm", 1), C1("decawm", 0), C1("lnm", 1)}
+RegStbm == {Cmd("stbm", p[1], p[2], NoPs) : p \in {q \in (1..H) \X (1..H) : q[1] < q[2]}}
+\* every row (in origin mode: every row of the region, rows are addressed from the top margin), left and right edge
+RegCup  == {Cmd("cup", x, y, NoPs) : x \in {0, W - 1}, y \in 0..(IF OM(t) THEN t.bot - t.top ELSE H - 1)}
+RegTxt  == {C1("txt", k) : k \in {1, 2, W, W + 1}}
+RegMove == {C0("lf"), C0("ind"), C0("nel"), C0("ri"), C0("cpr"), C1("cnl", 1), C1("cpl", 1), C1("vpa", 1), C1("vpa", H),
+            C1("ed", 0), C1("ed", 1), Cmd("cup", 0, H + 1, NoPs)}
+       \cup {C1(k, a) : k \in {"il", "dl"}, a \in {1, 2, H}}
+       \cup {C1(k, a) : k \in {"cuu", "cud"}, a \in {1, H}}
+\* text and the position query at both edges; what else does not print is tried from the right edge only (where a
+\* carriage return shows)
+RegActs(pre) == IF pre.t \in {"irm", "decawm"} THEN RegTxt
+                ELSE IF pre.t = "lnm" THEN (IF t.cx = 0 THEN {} ELSE {C0("lf"), C0("ind"), C0("nel")})
+                ELSE IF t.cx = 0 THEN RegTxt \cup {C0("cpr")} ELSE RegTxt \cup RegMove
+RegLen == 4 + RegDepth
+RegInit == t = NewVT(W, H) /\ n = 0 /\ last = Cmd("init", 0, 0, NoPs) /\ gh = Gh0 /\ hist = <<Cmd("init", 0, 0, NoPs)>>
+RegNext == \/ n = 0 /\ Do(RegFill)
+           \/ n = 1 /\ \E c \in RegPre : Do(c)
+           \/ n = 2 /\ \E c \in RegStbm : Do(c)
+           \/ n = 3 /\ \E c \in RegCup : Do(c)
+           \/ n = 4 /\ \E c \in RegActs(hist[3]) : Do(c)
+           \/ n > 4 /\ n < RegLen /\ Do(C1("txt", 2))
+RegSpec == RegInit /\ [][RegNext]_vars
+
 (* ---- checked ---- *)
 Shape == t.w = W /\ t.h = H /\ WellFormedShape(t) /\ WellFormed(t)
+ExtShape == /\ t.tabs \subseteq 0..(W - 1)
+            /\ (OM(t) => InRegion(t))
+            /\ (t.sc.pos # <<>> => t.sc.pos[1] \in 0..(W - 1) /\ t.sc.pos[2] \in 0..(H - 1))
+            /\ t.g0 \in {"B", "0"} /\ t.g1 \in {"B", "0"} /\ t.shift \in 0..1
 SelfAccepted == Matches(t, ObsOf(t), TRUE) /\ Matches(t, ObsOf(t), FALSE) /\ Why(t, ObsOf(t), TRUE) = "-"
 DialectWellFormed ==
-  \A c \in {d \in McCmds : d.t \in {"cuu", "cud", "il", "dl", "stbm"}} : LET cs == Cands(t, c, FALSE) IN
+  \A c \in {d \in McCmds : d.t \in {"cuu", "cud", "cnl", "cpl", "il", "dl", "stbm", "ht", "decrc"}} : LET cs == Cands(t, c, FALSE) IN
      \A i \in 1..Len(cs) : WellFormed(cs[i]) /\ WellFormedShape(cs[i]) /\ cs[i].w = W /\ cs[i].h = H
 ViewLaw == \A k \in 0..(Len(t.sb) + 1) :
              LET v == ViewOf(t.sb, t.grid, k) IN Len(v) = H /\ (k = 0 => v = t.grid)
                                                  /\ (k >= Len(t.sb) /\ Len(t.sb) > 0 => v[1] = t.sb[1])
+\* every query has exactly the answers of a cursor position inside the screen (inside the region in origin mode)
+RepliesWellFormed ==
+  /\ \A r \in Replies(t, C0("cpr"), FALSE) : \E x \in 0..(W - 1), y \in 0..(H - 1) : r = CPR(x, y)
+  /\ Replies(t, C0("cpr"), TRUE) \subseteq Replies(t, C0("cpr"), FALSE) /\ Cardinality(Replies(t, C0("cpr"), TRUE)) = 1
+  /\ Replies(t, C0("dsr"), TRUE) = {DSROK} /\ Replies(t, C0("da"), TRUE) = {DA}
 ScrollbackGrowsInOrder == [][Len(t'.sb) >= Len(t.sb) /\ SubSeq(t'.sb, 1, Len(t.sb)) = t.sb]_vars
+\* only a region that starts at the top of the screen feeds the scrollback
+ScrollbackFedFromTheTop == [][Len(t'.sb) > Len(t.sb) => t.top = 0]_vars
+\* line feeds, reverse index, insert and delete line never touch a line outside the scrolling region
+Outside(y) == y - 1 < t.top \/ y - 1 > t.bot
+RegionScrollIsLocal ==
+  [][last'.t \in {"lf", "ind", "nel", "ri", "il", "dl"} => \A y \in 1..H : Outside(y) => t'.grid[y] = t.grid[y]]_vars
+\* autowrap with the cursor outside the region: down one line (never past the last line), nothing scrolls
+WrapOutsideRegion ==
+  [][(last'.t = "put" /\ t.wrap /\ t.pend /\ Outside(t.cy + 1))
+       => /\ t'.cy = Min2(t.cy + 1, H - 1) /\ t'.sb = t.sb
+          /\ \A y \in 1..H : y - 1 # t'.cy => t'.grid[y] = t.grid[y]]_vars
+\* a run of k glyphs printed with the cursor below the region: the glyphs fill the lines down to the last one, where the
+\* run goes on overwriting; nothing scrolls and no line of or above the region changes
+TextBelowRegion ==
+  [][(last'.t \in {"put", "txt"} /\ t.wrap /\ t.cy > t.bot)
+       => LET k == IF last'.t = "put" THEN 1 ELSE Len(last'.ps)
+              v0 == IF t.pend THEN W ELSE t.cx
+          IN k >= 1 => /\ t'.cy = Min2(t.cy + ((v0 + k - 1) \div W), H - 1) /\ t'.sb = t.sb
+                       /\ \A y \in 1..(t.bot + 1) : t'.grid[y] = t.grid[y]]_vars
+\* a query changes nothing
+QueriesChangeNothing == [][last'.t \in Query => t' = t]_vars
 
 (* ---- refuted (TLC must find a counterexample) ---- *)
 ExclusiveEraseIsAccepted == Matches(ED1Exclusive(t), ObsOf(ED(t, 1)), FALSE)
+\* autowrap that takes the bottom margin for the bottom of the screen
+MarginBoundWrap(s, c) == IF s.pend /\ s.wrap /\ s.cy > s.bot THEN PutX([s EXCEPT !.cx = 0, !.pend = FALSE], c) ELSE PutX(s, c)
+MarginBoundWrapIsAccepted == Matches(MarginBoundWrap(t, 120), ObsOf(PutX(t, 120)), FALSE)
 =============================================================================
